@@ -929,7 +929,7 @@ impl Vm {
           ),
         )
       },
-      ImportResult::CompileError => ExecutionSignal::Exit,
+      ImportResult::CompileError => self.set_exit(1),
     };
 
     self.pop_roots(2);
@@ -1011,7 +1011,7 @@ impl Vm {
           ),
         )
       },
-      ImportResult::CompileError => ExecutionSignal::Exit,
+      ImportResult::CompileError => self.set_exit(1),
     };
 
     self.pop_roots(2);
